@@ -122,6 +122,83 @@ theorem src_get_endianness_fields_eq (h : Nat) :
   simp (decide := true) only [runItem, exec, eval, bind_ok', lookup_cons_eq, lookup_setVar_eq, lookup_setVar_ne,
     asInt_int, pyInt_int, e24, e255, emask, pyAnd_nat, pyShr_nat, land_mask24, land_mask8, land_mask24', land_mask8']
 
+/-! ### one turn of `stream2bytearray`'s loop -/
+
+def byteInt (b : UInt8) : Int := (b.toNat : Int)
+/-- a bytes object as a MiniPy value -/
+def bytesVal (bs : Dap4.Bytes) : Val := .ilist (bs.map byteInt)
+
+theorem beU32_bytes (b0 b1 b2 b3 : UInt8) :
+    beU32 [byteInt b0, byteInt b1, byteInt b2, byteInt b3] = .ok ((Dap4.be32 b0 b1 b2 b3 : Nat) : Int) := by
+  have h0 := UInt8.toNat_lt b0
+  have h1 := UInt8.toNat_lt b1
+  have h2 := UInt8.toNat_lt b2
+  have h3 := UInt8.toNat_lt b3
+  have hc : (0 ≤ byteInt b0 ∧ byteInt b0 < 256 ∧ 0 ≤ byteInt b1 ∧ byteInt b1 < 256 ∧ 0 ≤ byteInt b2 ∧
+      byteInt b2 < 256 ∧ 0 ≤ byteInt b3 ∧ byteInt b3 < 256) := by
+    simp only [byteInt]; omega
+  simp only [beU32]
+  rw [if_pos hc]
+  simp only [byteInt, Dap4.be32]
+  congr 1
+
+theorem slice_header (pre rest : Dap4.Bytes) (b0 b1 b2 b3 : UInt8) :
+    (((pre ++ b0 :: b1 :: b2 :: b3 :: rest).map byteInt).drop ((pre.length : Int)).toNat).take
+        (((pre.length : Int) + 4).toNat - ((pre.length : Int)).toNat)
+      = [byteInt b0, byteInt b1, byteInt b2, byteInt b3] := by
+  have e1 : ((pre.length : Int)).toNat = pre.length := by simp
+  have e2 : ((pre.length : Int) + 4).toNat - pre.length = 4 := by omega
+  rw [e1, e2, List.map_append, List.drop_left' (by simp)]
+  simp
+
+def turnEnv (data : Dap4.Bytes) (offset : Nat) (last : Bool) : Env :=
+  [("data", bytesVal data), ("offset", .int offset), ("last", .bool last)]
+
+theorem src_stream2bytearray_turn_eq (pre rest : Dap4.Bytes) (b0 b1 b2 b3 : UInt8) (last : Bool) :
+    (rest.length < Dap4.chunkSize (Dap4.be32 b0 b1 b2 b3) →
+      exec (turnEnv (pre ++ b0 :: b1 :: b2 :: b3 :: rest) pre.length last) Gen.src_stream2bytearray_turn
+        = .error (.raised "EOFError")) ∧
+    (¬ rest.length < Dap4.chunkSize (Dap4.be32 b0 b1 b2 b3) →
+      runItem (turnEnv (pre ++ b0 :: b1 :: b2 :: b3 :: rest) pre.length last) Gen.src_stream2bytearray_turn "@item0"
+        = .ok (.int ((pre.length + 4 : Nat) : Int)) ∧
+      runItem (turnEnv (pre ++ b0 :: b1 :: b2 :: b3 :: rest) pre.length last) Gen.src_stream2bytearray_turn "@item1"
+        = .ok (.int (Dap4.chunkSize (Dap4.be32 b0 b1 b2 b3) : Nat)) ∧
+      runItem (turnEnv (pre ++ b0 :: b1 :: b2 :: b3 :: rest) pre.length last) Gen.src_stream2bytearray_turn "offset"
+        = .ok (.int ((pre.length + 4 + Dap4.chunkSize (Dap4.be32 b0 b1 b2 b3) : Nat) : Int)) ∧
+      runItem (turnEnv (pre ++ b0 :: b1 :: b2 :: b3 :: rest) pre.length last) Gen.src_stream2bytearray_turn "@break"
+        = .ok (.bool last)) := by
+  unfold Gen.src_stream2bytearray_turn turnEnv bytesVal Dap4.chunkSize
+  have hlen : (((pre ++ b0 :: b1 :: b2 :: b3 :: rest).map byteInt).length : Int) = pre.length + 4 + rest.length := by
+    simp; omega
+  have hle : (0 : Int) ≤ pre.length ∧ (pre.length : Int) ≤ pre.length + 4 := by omega
+  have h1 : ¬ ((pre.length : Int) + 4 > pre.length + 4 + rest.length) := by omega
+  constructor
+  · intro hshort
+    have h2 : ((pre.length : Int) + 4 + ((Dap4.be32 b0 b1 b2 b3 % 16777216 : Nat) : Int)
+        > pre.length + 4 + rest.length) := by omega
+    simp (decide := true) only [runItem, exec, eval, bind_ok', bind_error', lookup_cons_eq, lookup_cons_ne,
+      lookup_setVar_eq, lookup_setVar_ne, asInt_int, hlen, h1, h2, decide_false, decide_true, truthy_bool, if_false,
+      Bool.false_eq_true, hle, and_self, if_true, slice_header, beU32_bytes, pyInt_int, e24, e255, emask, pyAnd_nat,
+      pyShr_nat, land_mask24, land_mask8, land_mask24', land_mask8']
+  · intro hfit
+    have h2 : ¬ ((pre.length : Int) + 4 + ((Dap4.be32 b0 b1 b2 b3 % 16777216 : Nat) : Int)
+        > pre.length + 4 + rest.length) := by omega
+    refine ⟨?_, ?_, ?_, ?_⟩ <;> cases last <;>
+    simp (decide := true) only [runItem, exec, eval, bind_ok', bind_error', lookup_cons_eq, lookup_cons_ne,
+      lookup_setVar_eq, lookup_setVar_ne, asInt_int, hlen, h1, h2, decide_false, decide_true, truthy_bool, if_false,
+      Bool.false_eq_true, hle, and_self, if_true, slice_header, beU32_bytes, pyInt_int, e24, e255, emask, pyAnd_nat,
+      pyShr_nat, land_mask24, land_mask8, land_mask24', land_mask8'] <;>
+    (try (congr 2 <;> omega))
+
+/-- fewer than four bytes left at `offset`: the header test raises -/
+theorem src_stream2bytearray_turn_short (pre tail : Dap4.Bytes) (last : Bool) (ht : tail.length < 4) :
+    exec (turnEnv (pre ++ tail) pre.length last) Gen.src_stream2bytearray_turn = .error (.raised "EOFError") := by
+  unfold Gen.src_stream2bytearray_turn turnEnv bytesVal
+  have hlen : (((pre ++ tail).map byteInt).length : Int) = pre.length + tail.length := by simp
+  have h1 : ((pre.length : Int) + 4 > pre.length + tail.length) := by omega
+  simp (decide := true) only [exec, eval, bind_ok', bind_error', lookup_cons_eq, lookup_cons_ne, lookup_setVar_eq,
+    lookup_setVar_ne, asInt_int, hlen, h1, decide_true, truthy_bool, if_true]
+
 theorem chunkType_lt (h : Nat) : Dap4.chunkType h < 256 := by
   unfold Dap4.chunkType; omega
 
